@@ -146,8 +146,10 @@ def run_real(cases, schedules, scratch, base_seed, per_shape_budget=None, env_fo
             bm, eb, cw = POLICIES[(k + ci) % len(POLICIES)]
             env = env_for(ci, k) if env_for else None
             sched = (base_seed * 1000003 + ci * 101 + k, bm, eb, cw) + ((env,) if env else ())
-            h = ctl.run_case(sn, oa, scratch, make_policy(sched), catch_crash=catch_crash, **extra)
-            h.sid, h.case_index, h.sched, h.extra = sid, ci, sched, extra
+            # every third run with all loggers of the runtime enabled (level 1)
+            ex = dict(extra, verbose=True) if (k + 2 * ci) % 3 == 1 else extra
+            h = ctl.run_case(sn, oa, scratch, make_policy(sched), catch_crash=catch_crash, **ex)
+            h.sid, h.case_index, h.sched, h.extra = sid, ci, sched, ex
             # light: keep only the recorded data (picklable, and the real objects of the run can be collected)
             runs.append(ctl.to_record(h) if light else h)
     return runs
